@@ -8,6 +8,7 @@ import (
 	"io/fs"
 	"net/url"
 	"os"
+	"regexp"
 	"strings"
 	"time"
 
@@ -40,6 +41,8 @@ var vStubTable = map[string]string{
 	"os.IsNotExist":          "vIsNotExist",
 	"os.MkdirAll":            "vMkdirAll",
 	"os.CreateTemp":          "vCreateTemp",
+	"os.Create":              "vCreate",
+	"(*regexp.Regexp).MatchString": "vIgnoreMatch",
 	"os.Rename":              "vRename",
 	"os.RemoveAll":           "vRemoveAll",
 	"(*os.File).Stat":        "vFileStat",
@@ -89,6 +92,7 @@ type vNode struct {
 	dir     bool
 	content string      // bytes of a source or generated file
 	rec     *targetInfo // a record file's decoded content (nil until written)
+	idx     *index      // the index file's decoded content (nil until written: truncated / empty)
 }
 
 var (
@@ -250,6 +254,25 @@ func vCreateTemp(dir, pattern string) (*os.File, error) {
 	return f, nil
 }
 
+// vCreate: os.Create — the file is created or truncated in place (the index is written this way:
+// a process that dies before the encode leaves an empty file, which does not decode)
+func vCreate(name string) (*os.File, error) {
+	vTick("create")
+	if n, ok := vFS[vParent(name)]; !ok || !n.dir {
+		return nil, vErrNotExist
+	}
+	vPut(name, &vNode{})
+	f := &os.File{}
+	vHandles[f] = name
+	return f, nil
+}
+
+// vIgnoreMatch: the project's ignore list, modelled as the single pattern third_party/** (how glob
+// sets match is C17's subject); only consulted where the code under test asks proj.ignored
+func vIgnoreMatch(re *regexp.Regexp, s string) bool {
+	return strings.HasPrefix(s, "third_party/")
+}
+
 func vRename(oldpath, newpath string) error {
 	vTick("rename")
 	n, ok := vFS[oldpath]
@@ -376,7 +399,15 @@ func vJSONEncode(e *json.Encoder, v any) error {
 	if !ok {
 		return vErrNotExist
 	}
-	n.rec = vCopyInfo(v.(targetInfo))
+	switch v := v.(type) {
+	case targetInfo:
+		n.rec = vCopyInfo(v)
+	case index:
+		c := index{Flags: append([]*Flag{}, v.Flags...), Targets: append([]TargetSummary{}, v.Targets...)}
+		n.idx = &c
+	default:
+		return vErrT("model: JSON encoding of an unmodelled type")
+	}
 	return nil
 }
 
@@ -384,10 +415,20 @@ func vJSONNewDecoder(r io.Reader) *json.Decoder { vJSONR = r; return &json.Decod
 
 func vJSONDecode(d *json.Decoder, v any) error {
 	n := vFS[vHandles[vJSONR.(*os.File)]]
-	if n == nil || n.rec == nil {
-		return vErrT("unexpected end of JSON input")
+	switch v := v.(type) {
+	case *targetInfo:
+		if n == nil || n.rec == nil {
+			return vErrT("unexpected end of JSON input")
+		}
+		*v = *vCopyInfo(*n.rec)
+	case *index:
+		if n == nil || n.idx == nil {
+			return vErrT("unexpected end of JSON input")
+		}
+		*v = index{Flags: append([]*Flag{}, n.idx.Flags...), Targets: append([]TargetSummary{}, n.idx.Targets...)}
+	default:
+		return vErrT("model: JSON decoding of an unmodelled type")
 	}
-	*(v.(*targetInfo)) = *vCopyInfo(*n.rec)
 	return nil
 }
 
@@ -653,6 +694,8 @@ var vShapes = [][]vTargetSpec{
 	{{pkg: "//a", name: "gen", sources: []string{"a/s.txt"}, gens: []string{"a/out.txt"}}, {pkg: "//b", name: "top", deps: []string{"//a:gen"}, sources: []string{"a/out.txt"}}},
 	// S5: an always target with a dependent
 	{{pkg: "//", name: "stamp", always: true}, {pkg: "//", name: "mid", deps: []string{"//:stamp"}, sources: []string{"s.txt"}}, {pkg: "//", name: "top", deps: []string{"//:mid"}}},
+	// S6: a source below a directory that the project's ignore list may cover (vIgnoring)
+	{{pkg: "//", name: "gen", sources: []string{"third_party/z/v.txt"}}, {pkg: "//", name: "top", deps: []string{"//:gen"}, sources: []string{"s.txt"}}},
 }
 
 var vShape []vTargetSpec
@@ -664,15 +707,7 @@ func vLabelOf(s *vTargetSpec) string { return s.pkg + ":" + s.name }
 // vLoadProject: a fresh process loading the project (new Project; function.load re-reads the records).
 func vLoadProject() (*Project, error) {
 	vMkdirs(vTemp)
-	proj := &Project{
-		root:    vRoot,
-		work:    vWork,
-		temp:    vTemp,
-		events:  vRecorder{},
-		flags:   map[string]*Flag{},
-		modules: map[string]*module{},
-		targets: map[string]*runTarget{},
-	}
+	proj := vNewProject()
 	for i := range vShape {
 		s := &vShape[i]
 		vBodies[s.name] = s
@@ -706,7 +741,42 @@ func vLoadProject() (*Project, error) {
 	if err := proj.link(); err != nil {
 		return nil, err
 	}
+	if vIndexMode {
+		proj.saveIndex() // as Project.load does after a full load (its error is ignored there too)
+	}
 	return proj, nil
+}
+
+// vIndexMode: full loads write index.json and `dawn gc` loads the project from it (PreferIndex), as
+// the command line does; vIgnoring: the project's configuration has an ignore list
+var vIndexMode, vIgnoring bool
+
+func vNewProject() *Project {
+	proj := &Project{
+		root:    vRoot,
+		work:    vWork,
+		temp:    vTemp,
+		events:  vRecorder{},
+		flags:   map[string]*Flag{},
+		modules: map[string]*module{},
+		targets: map[string]*runTarget{},
+	}
+	if vIgnoring {
+		proj.ignore = &regexp.Regexp{}
+	}
+	return proj
+}
+
+// vLoadForGC: what `dawn gc` loads — the index if it is there and decodes, a full load otherwise.
+func vLoadForGC() (*Project, error) {
+	if vIndexMode {
+		proj := vNewProject()
+		if err := proj.loadIndex(); err == nil {
+			vReach("loaded-from-index")
+			return proj, nil
+		}
+	}
+	return vLoadProject()
 }
 
 // vBuild: load + run, as the CLI does. Returns (load error, build error, crashed).
